@@ -180,3 +180,11 @@ def call_arg(call, index, name):
         if k.arg == name:
             return k.value
     return None
+
+
+def digest_checked_before_delete(ev):
+    """the failed-move handler may remove what sits at the permanent address only after it has read and hashed that file
+    (get_hex_digest returned on every path to the removal) and found the digest different from the one just computed"""
+    if ("call", f"{CLS}.get_hex_digest") not in ev.done:
+        return False
+    return True
